@@ -118,3 +118,58 @@ Lemma wake_stale_refuted :
               begin_txn (st w) 0 0 = Some 2 /\ In (2, ((0, 0), 11)) (objs w) /\ In (0, ((0, 0), 10)) (objs w) /\
               exists w' s, step idh w (OWake 0) = (w', ObBegun 2 s true).
 Proof. eexists. eexists. split; [vm_compute; reflexivity|]. vm_compute. repeat split; auto. eexists. eexists. reflexivity. Qed.
+
+(** ---------------------------------------------------------------------------------------------------------
+    Mutant 5: a rebuilt pool inherits the ban list of its predecessor (by analogy with the pause flag).  In the code
+    the list has one map per shard of the definition it was built for: with an inherited list a transaction routed to
+    an ADDED shard indexes past its end (panic).  In the model: bans are keyed by object, a new object has none. *)
+Definition inherit_bans (old new : pools_t) (b : list (pool_id * nat)) : list (pool_id * nat) :=
+  b ++ flat_map (fun e => match plookup (fst e) old with
+                          | Some (_, p0) => map (fun x => (snd (snd e), snd x)) (filter (fun x => fst x =? p0) b)
+                          | None => []
+                          end) new.
+
+Definition ban_ops : list op :=
+  [OReload (Valid two_pools (bo_of [] [])); OBan (0, 0) 1; OBan (1, 0) 1; OReload (Valid held_new (bo_of [] []))].
+
+(** pool 0 is rebuilt (object 2), pool 1 is kept (object 1): the model has the ban of object 1 still there, none for
+    object 2; the mutant would carry (0,1) over to (2,1) *)
+Lemma inherit_bans_refuted :
+  exists w, run idh empty_world ban_ops = (w, [ObReload (ROk true); ObAdmin true; ObAdmin true; ObReload (ROk true)]) /\
+            pools (st w) = [((0, 0), (11, 2)); ((1, 0), (20, 1))] /\ bans w = [(1, 1); (0, 1)] /\
+            (forall i, ~ In (2, i) (bans w)) /\
+            In (2, 1) (inherit_bans [((0, 0), (10, 0)); ((1, 0), (20, 1))] (pools (st w)) (bans w)).
+Proof.
+  eexists. split; [vm_compute; reflexivity|]. cbn [st pools bans]. repeat split; auto.
+  - intros i [H|[H|[]]]; discriminate.
+  - vm_compute. auto.
+Qed.
+
+(** ---------------------------------------------------------------------------------------------------------
+    Mutant 6: [query_router.update_pool_settings] dropped from the refresh block (or done only when the hash differs
+    from a re-read made a moment earlier): a session that was connected before the reload runs its next transaction
+    on the NEW pool object with the router settings (plugins, parser flags, shard count, default role) of the OLD one. *)
+Definition session_ops : list op :=
+  [OReload (Valid two_pools (bo_of [] [])); OConnect 0 0 0; OReload (Valid held_new (bo_of [] [])); OBegin 0].
+
+Lemma stale_router_refuted :
+  exists w x, run idh empty_world session_ops = (w, [ObReload (ROk true); ObConnected 0; ObReload (ROk true); ObBegun 2 1 true]) /\
+              cl_lookup 0 (clients w) = Some x /\ cclone x = 2 /\ cset x = 2 /\
+              (* before the transaction started the router still had the settings of object 0 *)
+              exists w0 x0, fst (run idh empty_world (firstn 3 session_ops)) = w0 /\ cl_lookup 0 (clients w0) = Some x0 /\ cset x0 = 0.
+Proof. eexists. eexists. split; [vm_compute; reflexivity|]. vm_compute. repeat split; auto. eexists. eexists. repeat split; reflexivity. Qed.
+
+(** ---------------------------------------------------------------------------------------------------------
+    Mutant 7: the pools that the NEW file drops are resumed at the TOP of from_config, before anything is built: when
+    the build then fails the reload is refused, the pool is still registered — and no longer paused. *)
+Definition drop_and_fail : cfg := {| cgen := 1; cidle := 0; cpools := [(1, (21, [0]))] |}.      (* pool 0 dropped, pool 1 redefined *)
+Definition early_resume (c : cfg) (paused : list key) : list key :=
+  filter (fun k => match clookup (fst k) (cpools c) with Some (_, us) => mem (snd k) us | None => false end) paused.
+Definition refuse_ops : list op :=
+  [OReload (Valid two_pools (bo_of [] [])); OPause (0, 0); OReload (Valid drop_and_fail (bo_of [(1, 0)] []))].
+
+Lemma early_resume_refuted :
+  exists w, run idh empty_world refuse_ops = (w, [ObReload (ROk true); ObAdmin true; ObReload RErr]) /\
+            config (st w) = two_pools /\ has_pool (st w) (0, 0) = true /\ paused w = [(0, 0)] /\
+            early_resume drop_and_fail (paused w) = [].
+Proof. eexists. split; [vm_compute; reflexivity|]. vm_compute. auto. Qed.
